@@ -1,6 +1,7 @@
 import PugModel.Tpl.Compile
 import PugProofs.Props.C10
 import PugProofs.C13.Static
+import PugProofs.C13.Deletes
 import PugProofs.Props.C06
 /-!
 # C13 — debug (pretty-source) mode changes white space only
@@ -128,5 +129,34 @@ theorem C13_compiler_state_per_template :
     (Gen.loadSkeleton.filter fun r => r.2 == "3 new renderState" || r.2 == "0 new renderState" || r.2 == "1 new renderState" ||
       r.2 == "2 new renderState" || r.2 == "4 new renderState") = [("compileDir", "3 new renderState")] :=
   Pug.Props.C10.C10_state_per_template
+
+open Pug.Props.C13S Pug.Props.C13D Pug.Props.C06S Pug.Driver in
+/-- **C13 (debug mode only DELETES white space, whole documents).** For EVERY static document and any page data: what the model
+of LoadTemplates + Render prints with `Engine.Debug = true` is obtained from the reference serialisation - which is what production
+mode prints (`C06_static_render`) - by deleting white-space characters (`WsDel`): debug mode never introduces a character that
+production mode does not emit, and never changes one. The separator's own five blanks and line break are always inside what its
+trim markers remove (`rel2_out`), and trimming only deletes white space (`wsdel_outR`). -/
+theorem C13_static_debug_only_deletes (doc : List Node) (data : Lean.Json) (h : staticListF nodeFuel doc = true) :
+    ∃ frags, compileNodes { funcs := engineFuncs ++ [], parserFuncs := engineFuncs ++ [] ++ builtinNames, debug := true } doc = .ok frags ∧
+      (frags.length + 2 < 100000000 →
+        ∃ w, renderModel doc data [] true = okOut w ∧ WsDel w.toList (serListF nodeFuel doc).toList) := by
+  obtain ⟨frags, h1, h2, _, h4⟩ := compileDoc_static_debug
+    { funcs := engineFuncs ++ [], parserFuncs := engineFuncs ++ [] ++ builtinNames, debug := true } rfl doc h
+  refine ⟨frags, h1, fun hlen => ?_⟩
+  have hm := merge_db frags.length frags (Nat.le_refl _) h2
+  have hl := merge_length frags.length frags (Nat.le_refl _)
+  have ht := trims_db (mergeTexts frags).length (mergeTexts frags) (Nat.le_refl _) hm.1
+  have htl := trims_length (mergeTexts frags)
+  have hw := walk_db { defs := [] } (applyTrims (mergeTexts frags)) ht.1 (initState data) 100000000 (by omega)
+  have hout : (initState data).out = "" := by
+    unfold initState
+    split <;> rfl
+  refine ⟨dbStr (applyTrims (mergeTexts frags)), ?_, debug_out_wsdel _ rfl doc h frags h1 h2⟩
+  simp only [renderModel, h4, StateT.run, hw, hout, String.empty_append]
+
+/-- deleting white space is what it says: a concrete instance -/
+example : Pug.Props.C13D.WsDel "<p>ab</p>".toList "<p> a b</p>\n".toList := by
+  refine .keep _ (.keep _ (.keep _ (.drop _ (by decide) (.keep _ (.drop _ (by decide) (.keep _ (.keep _ (.keep _ (.keep _ (.keep _
+    (.drop _ (by decide) .nil)))))))))))
 
 end Pug.Props.C13
